@@ -619,9 +619,31 @@ def qiskit_cases(named):
 
 
 # ------------------------------------------------------------------------------- run
+def _has_ctrl_of_const_composed(d):
+    """Input class of a known finding: somewhere below, a ControlledGate whose controlled gate is itself a composed gate
+    without parameters (DaggerGate / PowerGate / TaggedGate / EmbeddedGate / CircuitGate ... of constants)."""
+    if d['k'] == 'controlled':
+        s = d['sub'][0]
+        if s['k'] != 'base' and _nparams_desc(s) == 0:
+            return True
+    return any(_has_ctrl_of_const_composed(s) for s in d['sub'])
+
+
+def _nparams_desc(d):
+    if d['k'] == 'base':
+        return 0 if d['name'] in ('TABLE', 'OTHER') else len(d['p']) - len([x for x in d['cp']]) if d['name'] in ('MPRZ', 'MPRY') else (
+            len(d['p']) if d['name'] == 'DIAG' else exact.PARAM_ARITY.get(d['name'], 0))
+    n = sum(_nparams_desc(s) for s in d['sub'])
+    return n - len(d['fz']) if d['k'] == 'frozen' else n
+
+
 def key_of(case, clause):
     base = clause.split(':')[0]
     k = {'kind': case['kind'], 'clause': base}
+    if case['kind'] == 'composed':
+        d = case['d']
+        k['pattern'] = ('controlled-constant-composed-under-' + d['k']) if (d['k'] in ('embedded', 'circuit', 'frozen', 'dagger', 'power', 'tagged')
+                                                                            and _has_ctrl_of_const_composed(d)) else ''
     if ':' in clause:
         k['sub'] = clause.split(':', 1)[1]
     if case['kind'] in ('named', 'qiskit'):
@@ -634,46 +656,51 @@ def key_of(case, clause):
     return k
 
 
-def build_cases(ctx):
+def recipes_of(ctx):
     rng = random.Random(ctx.seed * 1000003 + 18)
     quick = ctx.quick
     named = named_catalogue(quick)
-    cases, recipes = [], []
+    recipes = []
     for name, p, rs in named:
-        cases.append(observe_named(name, p, rs))
         recipes.append({'how': 'named', 'args': [name, p, rs]})
     for c in composed_catalogue(rng, 900 if quick else 9000):
         s = rng.randrange(1 << 30)
-        case, _, _ = observe_composed(c, random.Random(s))
-        cases.append(case)
         recipes.append({'how': 'composed', 'c': c, 'seed': s})
         if rng.random() < 0.6:
-            cases.append(observe_inverse(c, random.Random(s)))
             recipes.append({'how': 'inverse', 'c': c, 'seed': s})
     for name, p, rs in named:          # inverse of every named gate at every point
-        try:
-            cases.append(observe_inverse(('base', name, p, rs), random.Random(0)))
-        except RuntimeError:           # no matrix at all: already a `dimension` verdict of the named case
-            continue
         recipes.append({'how': 'inverse', 'c': ('base', name, p, rs), 'seed': 0})
     for c1, c2, how in eqhash_catalogue(rng, 500 if quick else 5000):
-        s = rng.randrange(1 << 30)
-        cases.append(observe_eqhash(c1, c2, s, how))
-        recipes.append({'how': 'eqhash', 'c1': c1, 'c2': c2, 'seed': s, 'label': how})
+        recipes.append({'how': 'eqhash', 'c1': c1, 'c2': c2, 'seed': rng.randrange(1 << 30), 'label': how})
+    return recipes, named
+
+
+def build_cases(ctx):
+    recipes, named = recipes_of(ctx)
+    built = exact.pmap(rebuild, recipes, procs=8, chunksize=32)
+    cases, kept = [], []
+    for r, c in zip(recipes, built):
+        if c is not None:
+            cases.append(c)
+            kept.append(r)
     for q in qiskit_cases(named):
         cases.append(q)
-        recipes.append({'how': 'qiskit'})
-    return cases, recipes
+        kept.append({'how': 'qiskit'})
+    return cases, kept
 
 
 def rebuild(recipe):
+    warnings.filterwarnings('ignore')
     h = recipe['how']
     if h == 'named':
         return observe_named(*recipe['args'])
     if h == 'composed':
         return observe_composed(totuple(recipe['c']), random.Random(recipe['seed']))[0]
     if h == 'inverse':
-        return observe_inverse(totuple(recipe['c']), random.Random(recipe['seed']))
+        try:
+            return observe_inverse(totuple(recipe['c']), random.Random(recipe['seed']))
+        except RuntimeError:           # the gate has no matrix at all: already a `dimension` verdict of its named case
+            return None
     if h == 'eqhash':
         return observe_eqhash(totuple(recipe['c1']), totuple(recipe['c2']), recipe['seed'], recipe['label'])
     return None
@@ -684,23 +711,25 @@ def totuple(c):
     return c
 
 
-def laws_pass(ctx):
-    r = common.tlc(LAWS, LAWS_CFG, coverage=True, scratch=ctx.scratch, timeout=900,
-                   env={'LAWS_PHASES': '0,6,16,24' if ctx.quick else '0,6,16,24,33'})
-    if not r.ok:
-        raise common.MachineryError('MonoLaws (gate algebra) failed: %s' % (r.error or r.out[-1500:]))
-    return r
+def laws_pass(ctx, out):
+    for cfg in (['MonoLawsGate.cfg'] if ctx.quick else ['MonoLawsGateT.cfg', 'MonoLawsGateS.cfg']):
+        out[cfg] = common.tlc(LAWS, os.path.join(common.SPECS, 'exact', cfg), coverage=True, scratch=ctx.scratch, timeout=3000,
+                              workers=6 if ctx.quick else 'auto')
 
 
 def run(ctx: Ctx) -> Outcome:
     common.use_repo()
     warnings.filterwarnings('ignore')
     out = Outcome('C18')
+    laws, th = {}, None
     if ctx.replay:
         rp = ctx.replay['replay']
         case = rebuild(rp['recipe']) if rp.get('recipe') and rp['recipe']['how'] != 'qiskit' else None
         cases, recipes = [case or rp['case']], [rp.get('recipe')]
     else:
+        import threading
+        th = threading.Thread(target=laws_pass, args=(ctx, laws))
+        th.start()
         cases, recipes = build_cases(ctx)
     verdicts, states, trans, _ = exact.par_validate(SPEC, CFG, cases, ctx.scratch, groups=8)
     for idx, _step, clause, _ in verdicts:
@@ -710,9 +739,14 @@ def run(ctx: Ctx) -> Outcome:
                                         '%s: %s' % (clause, str(small)[:900]), {'case': c, 'recipe': recipes[idx]}))
     laws_states = laws_trans = 0
     laws_cov = {}
-    if not ctx.replay:
-        lr = laws_pass(ctx)
-        laws_states, laws_trans, laws_cov = lr.distinct, lr.states, lr.coverage
+    if th is not None:
+        th.join()
+        for cfg, r in laws.items():
+            if not r.ok:
+                raise common.MachineryError('MonoLaws %s failed: %s' % (cfg, r.error or r.out[-1500:]))
+            laws_states += r.distinct
+            laws_trans += r.states
+            laws_cov[cfg] = {'distinct_states': r.distinct, 'states_generated': r.states, 'actions': r.coverage}
     kinds = {}
     for c in cases:
         kinds[c['kind']] = kinds.get(c['kind'], 0) + 1
@@ -734,8 +768,7 @@ def run(ctx: Ctx) -> Outcome:
         'exhaustive': False,
         'by_kind': kinds,
         'library_names': sorted({c['name'] for c in cases if c['kind'] == 'named'}),
-        'algebra_model_checking': {'spec': 'specs/exact/MonoLaws.tla / MonoLawsGate.cfg', 'distinct_states': laws_states,
-                                   'states_generated': laws_trans, 'coverage': laws_cov},
+        'algebra_model_checking': laws_cov,
         'samples': [{k: v for k, v in cases[i].items() if k not in ('obs_x', 'obs_ug')} for i in (3, len(cases) // 2, len(cases) - 2)
                     if 0 <= i < len(cases)],
         'checker_cmd': 'tlc -config specs/exact/GateLib.cfg specs/exact/GateLib.tla (batch, TRACE_FILE=cases.json); '
